@@ -88,3 +88,26 @@ Proof.
   split; [reflexivity|]. split; [reflexivity|]. split; reflexivity.
 Qed.
 Print Assumptions C04_code_result_labels.
+
+(* ---- the control skeleton of front_end._split_combined_result INTERPRETED (Proofs/InterpSplit.v): with a concrete value type and every
+   callee answered by the hand model's own function (split_by, pad; the accumulator list's contents are what the logged `append`
+   calls put there), the skeleton AS TRANSLATED - its split / pad / append / length-check loop - returns exactly the model's
+   front_joint_labels, for every window size, every list of series lengths and every master labelling of the right length; and when
+   the padded lengths are not the series' lengths it raises the AssertionError instead of returning.  C04_code_joint above composes the
+   translated helpers by hand; this is the code's own composition. ---- *)
+From Ticc Require Import Gen.G_front_split Proofs.InterpSplit.
+Theorem C04_code_split_skeleton_computes_model : forall (W : nat) (Ts : list nat) (labels : list Z),
+  (1 <= W)%nat -> Forall (fun T => (W <= T)%nat) Ts -> length labels = list_sum (map (num_windows W) Ts) ->
+  exists log', g_split_combined_result val VInt veq getattr as_list oracle_model
+                 (VMaster W labels) (VSizes (map (num_windows W) Ts)) (VSeriesList Ts) []
+               = (Ret (VResult (front_joint_labels W Ts labels)), log').
+Proof. exact split_skeleton_is_model. Qed.
+Print Assumptions C04_code_split_skeleton_computes_model.
+
+Theorem C04_code_split_skeleton_checks_lengths : forall (W : nat) (Ts : list nat) (labels : list Z),
+  map (@length Z) (front_joint_labels W Ts labels) <> Ts ->
+  exists log', g_split_combined_result val VInt veq getattr as_list oracle_model
+                 (VMaster W labels) (VSizes (map (num_windows W) Ts)) (VSeriesList Ts) []
+               = (Raise "AssertionError"%string, log').
+Proof. exact split_skeleton_assertion. Qed.
+Print Assumptions C04_code_split_skeleton_checks_lengths.
